@@ -23,7 +23,7 @@ def main():
             # an older reverse patch whose lines were changed again by later repairs
             print("== patch does not apply to the current tree")
             sd = os.path.dirname(patch)
-            if os.path.dirname(sd) == V + "/seeded":
+            if os.path.basename(os.path.dirname(sd)) == "seeded":
                 rp = sd + "/result.json"
                 old = json.load(open(rp)) if os.path.exists(rp) else {}
                 for pid in pids:
@@ -51,7 +51,7 @@ def main():
         shutil.rmtree(lean, ignore_errors=True)
         shutil.rmtree(evid, ignore_errors=True)
     sd = os.path.dirname(patch)
-    if os.path.dirname(sd) == V + "/seeded" and results:
+    if os.path.basename(os.path.dirname(sd)) == "seeded" and results:
         rp = sd + "/result.json"
         old = {}
         if os.path.exists(rp):
